@@ -1415,7 +1415,13 @@ class OptionStore:
                 # Options yielding to the replaced object follow the new one.
                 for other in self.options.values():
                     if other.parent is oldval:
-                        other.parent = value
+                        if type(other) is type(value):
+                            other.parent = value
+                        else:
+                            # The parent changed its type: do not yield to it
+                            # any more (same rule as in _link_to_parent).
+                            other.parent = None
+                            other.yielding = False
                 try:
                     value.set_value(oldval.value)
                 except MesonException:
